@@ -8,7 +8,7 @@ BENIGN_NAMES = ["alpha", "beta", "gamma", "delta", "eps"]
 LOOKALIKE_NAMES = [
     "plain", "OK", "NO", "BYE", "{3}", "{3+}", "ACTIVE", 'a" ACTIVE', "x\\y", 'a"b',
     "with space", "café", "日本語", "a\\", '"', "\\", "{0}", "x ACTIVE", "active",
-    'q"', "a,b", "(x)", "𝔘nicode", "trailing ", " leading", "OK \"x\"", "ü",
+    'q"', "a,b", "(x)", "𝔘nicode", "trailing ", " leading", "OK \"x\"", "ü", "名" * 170,
 ]
 
 LINE_POOL = [
@@ -18,6 +18,8 @@ LINE_POOL = [
     b'if header :is "Subject" "OK" { discard; }', b"{12}", b"OK (WARNINGS) \"w\"",
     b"text:", b".", b'"', b"\\", b"{", b"}", b'"unterminated',
     # characters str.splitlines() treats as line boundaries but which are content inside a line
+    # a legal quoted string of <= 1024 characters that is longer than 1024 octets
+    ("é" * 700).encode("utf-8"), ("日" * 400 + " x").encode("utf-8"),
     "a\u2028b".encode("utf-8"), "p\u2029q".encode("utf-8"), "n\u0085m".encode("utf-8"), b"v\x0bt", b"f\x0cf", b"g\x1cs\x1dr\x1eu",
 ]
 
